@@ -49,9 +49,9 @@ var c08IDs = []int{1, 2, 3, 4, 5, 6, 9, 10, 11, 12, 13, 14, 16, 21, 22, 23, 24, 
 
 // tval is a deep table value: letter -> triplet -> weight, plus start/stop lists.
 type tval struct {
-	w      map[string]map[string]int
-	starts string
-	stops  string
+	w       map[string]map[string]int
+	starts  string
+	stops   string
 	anomaly string // duplicate letters / triplets in the observed table
 }
 
@@ -229,13 +229,13 @@ type c08Step struct {
 }
 
 type c08Scenario struct {
-	Steps       []c08Step `json:"history"`
-	Handles     int       `json:"handles"`
-	SpecHolds   bool      `json:"value_semantics_held"`
-	FirstSpecDeviation string `json:"first_deviation_from_value_semantics,omitempty"`
-	FindingHolds bool     `json:"cell_model_held"`
-	FirstFindingDeviation string `json:"first_deviation_from_cell_model,omitempty"`
-	Panics      []core.PanicRec `json:"panics,omitempty"`
+	Steps                 []c08Step       `json:"history"`
+	Handles               int             `json:"handles"`
+	SpecHolds             bool            `json:"value_semantics_held"`
+	FirstSpecDeviation    string          `json:"first_deviation_from_value_semantics,omitempty"`
+	FindingHolds          bool            `json:"cell_model_held"`
+	FirstFindingDeviation string          `json:"first_deviation_from_cell_model,omitempty"`
+	Panics                []core.PanicRec `json:"panics,omitempty"`
 }
 
 func c08Sequence(t *core.Tape) (string, string) {
@@ -293,6 +293,7 @@ func (c08) Run(t *testing.T, tape *core.Tape, rcx *RunCtx) *core.Result {
 	var shape []string
 	reweights := 0
 	var panics []core.PanicRec
+	var machinery, stuck string
 	var simHash []string
 	steps := 0
 	simTime := int64(0)
@@ -425,10 +426,13 @@ func (c08) Run(t *testing.T, tape *core.Tape, rcx *RunCtx) *core.Result {
 					}
 				}
 				for len(batch) < n {
-					id := c08IDs[tape.Draw(len(c08IDs))]
-					if usedID[id] {
-						continue
+					var free []int
+					for _, id := range c08IDs {
+						if !usedID[id] {
+							free = append(free, id)
+						}
 					}
+					id := free[tape.Draw(len(free))]
 					usedID[id] = true
 					h := &c08Handle{tbl: codon.GetCodonTable(id), id: id, spec: c08Pristine[id].clone(), cell: id, origin: fmt.Sprintf("Get(%d)", id)}
 					handles = append(handles, h)
@@ -438,12 +442,21 @@ func (c08) Run(t *testing.T, tape *core.Tape, rcx *RunCtx) *core.Result {
 				seqs := make([]string, n)
 				descs := make([]string, n)
 				outs := make([]codon.Table, n)
+				total := 0
 				for i := range batch {
 					seqs[i], descs[i] = c08Sequence(tape)
+					if len(seqs[i]) > 6000 {
+						// long sequences belong to the sequential operations (which run
+						// at full speed); inside an interleaved batch every statement is
+						// a scheduler step
+						seqs[i] = seqs[i][:6000-tape.Draw(3)]
+						descs[i] = fmt.Sprintf("first %d letters of (%s)", len(seqs[i]), descs[i])
+					}
+					total += len(seqs[i])
 				}
 				sim := core.NewSim(tape)
 				sim.Record = rcx.Record
-				sim.MaxSteps = 200000
+				sim.MaxSteps = 60*total + 100000 // generous even if counting becomes a per-letter yield loop
 				for i := range batch {
 					i := i
 					sim.Go(func() { outs[i] = batch[i].tbl.OptimizeTable(seqs[i]) })
@@ -457,8 +470,10 @@ func (c08) Run(t *testing.T, tape *core.Tape, rcx *RunCtx) *core.Result {
 				if rcx.Record {
 					res.Trace = append(res.Trace, sim.Trace...)
 				}
-				if sim.End != core.EndQuiescent {
-					panics = append(panics, core.PanicRec{Task: "-", Site: "scheduler", Value: "concurrent batch ended with " + sim.End + " " + sim.MachineryError()})
+				if sim.End == core.EndMachinery {
+					machinery = sim.MachineryError()
+				} else if sim.End != core.EndQuiescent {
+					stuck = fmt.Sprintf("concurrent batch of %d re-weightings (%d letters in total) ended with %s after %d scheduler steps", n, total, sim.End, sim.Steps)
 				}
 				var names []string
 				for i, h := range batch {
@@ -499,8 +514,12 @@ func (c08) Run(t *testing.T, tape *core.Tape, rcx *RunCtx) *core.Result {
 	switch {
 	case pv != nil:
 		res.Class, res.Detail = "machinery:harness-panic", fmt.Sprint(pv)
+	case machinery != "":
+		res.Class, res.Detail = "machinery:scheduler", machinery
 	case len(panics) > 0:
 		res.Class, res.Detail = violation("panic"), fmt.Sprintf("%s at %s", panics[0].Value, panics[0].Site)
+	case stuck != "":
+		res.Class, res.Detail = violation("concurrent-reweighting-did-not-finish"), stuck
 	case dirty != "":
 		res.Class, res.Detail = violation("default-tables-permanently-changed"), dirty
 		c08Pristine = nil // this process can no longer start a run from a pristine state
